@@ -248,9 +248,15 @@ static void hook_fn(const char *name, int value)
     loop_exited = true;
 }
 
+// requested launch method / size of the tasking system for this process (C03_METHOD, C03_NTHREADS);
+// g_method < 0: take THREAD / TASK from the schedule line's launch letter
+static int g_method   = -1;
+static int g_nthreads = 0;
+
 struct Run
 {
-  bool thread_launch;
+  bool thread_launch;   // the launch the MODEL prescribes (resolve method nthreads): what the oracles require
+  bool joinable = true; // what the real object did: owns a joinable thread
   AsyncLoop *al = nullptr;
   std::shared_ptr<Data> data;
   std::thread ctl;
@@ -407,8 +413,10 @@ struct Run
     }
     loop_exited = false;
     free_run    = false;
-    al          = new AsyncLoop([this] { body(); }, thr ? AsyncLoop::THREAD : AsyncLoop::TASK);
+    al          = new AsyncLoop([this] { body(); }, g_method >= 0 ? (AsyncLoop::LaunchMethod)g_method
+                                                                 : (thr ? AsyncLoop::THREAD : AsyncLoop::TASK));
     data        = al->loop;
+    joinable    = al->backgroundThread.joinable();
     ctl         = std::thread([this] { controller_main(); });
     // thread start-up (std::thread / detached thread of the tasking backend) can be slow on a loaded
     // machine; the threads have no tid yet, so this is the one purely time-based wait: 10 minutes
@@ -467,7 +475,7 @@ struct Run
         w = "mutex busy";
         if (lmode == WOKEN && unforcible)
           *unforcible = true;
-      } else if (p == "dtor.after_notify" && thread_launch && lmode != DONE)
+      } else if (p == "dtor.after_notify" && joinable && lmode != DONE)
         w = "join: loop thread has not finished";
       else
         en = true;
@@ -596,6 +604,8 @@ struct Run
   // independent oracle on the real code's own state
   std::string oracle()
   {
+    if (joinable != thread_launch)
+      return "launch";  // the object did not take the launch method the constructor's resolution prescribes
     if (stop_ret.load() && active.load())
       return "stop_safe";
     if (enter_after_stop.load() > 0)
@@ -1018,14 +1028,94 @@ static int do_stress(bool thr, long max_cycles, unsigned seed, int inject, long 
   return 0;
 }
 
+// "destroy while a body invocation is in flight", no stop() before: which launch did the object take, and
+// does ~AsyncLoop wait for the in-flight body when it owns its thread?  Nothing here depends on timing: the
+// body is held until the destructor has returned or its thread is seen BLOCKED (in join) by the kernel.
+static int do_launch(const char *mname)
+{
+  free_run = true;
+  int N = rkcommon::tasking::numTaskingThreads();
+  std::atomic<bool> entered{false}, release{false}, finished{false}, dtor_returned{false};
+  std::atomic<long> begins{0}, begins_at_dtor{-1};
+  std::atomic<int> fin_at_dtor{-1}, dtid{0};
+  AsyncLoop *al = new AsyncLoop(
+      [&] {
+        long b = begins++;
+        if (b == 0) {
+          entered = true;
+          while (!release.load())
+            std::this_thread::sleep_for(std::chrono::microseconds(50));
+          finished = true;
+        }
+      },
+      (AsyncLoop::LaunchMethod)g_method);
+  std::shared_ptr<Data> data = al->loop;
+  bool joinable              = al->backgroundThread.joinable();
+  al->start();
+  long t0 = now_ms();
+  while (!entered.load() && now_ms() - t0 < 600000L)
+    std::this_thread::sleep_for(std::chrono::microseconds(100));
+  if (!entered.load()) {
+    printf("LAUNCH-STUCK method=%s num_tasking_threads=%d joinable=%d: the body never ran after start()\n", mname, N, (int)joinable);
+    fflush(stdout);
+    _exit(6);
+  }
+  std::thread D([&] {
+    dtid = my_tid();
+    delete al;
+    fin_at_dtor    = finished.load() ? 1 : 0;
+    begins_at_dtor = begins.load();
+    dtor_returned  = true;
+  });
+  BlockWatch w;
+  long ts = now_ms();
+  t0      = ts;
+  bool blocked = false;
+  while (!dtor_returned.load()) {
+    std::this_thread::sleep_for(std::chrono::microseconds(200));
+    long now = now_ms();
+    if (now - ts >= SAMPLE_MS) {
+      ts = now;
+      if (w.tid <= 0)
+        w.tid = dtid.load();
+      if (w.sample(25 * g_patience) || now - t0 > 600000L) {
+        blocked = true;  // the destructor waits (join) for the loop thread
+        break;
+      }
+    }
+  }
+  release = true;
+  D.join();
+  t0 = now_ms();
+  while (data.use_count() > 1 && now_ms() - t0 < 600000L)  // the loop thread / task still holds the shared state
+    std::this_thread::sleep_for(std::chrono::microseconds(100));
+  printf("LAUNCH method=%s requested_threads=%d num_tasking_threads=%d joinable=%d dtor_waited=%d body_finished_when_dtor_returned=%d "
+         "body_begins_after_dtor=%ld loop_gone=%d\n",
+         mname, g_nthreads, N, (int)joinable, (int)blocked, fin_at_dtor.load(), begins.load() - begins_at_dtor.load(),
+         (int)(data.use_count() == 1));
+  return 0;
+}
+
 int main(int argc, char **argv)
 {
   std::string mode = argc > 1 ? argv[1] : "";
+  const char *mname = getenv("C03_METHOD");
+  if (mname && *mname)
+    g_method = !strcmp(mname, "AUTO") ? (int)AsyncLoop::AUTO : !strcmp(mname, "THREAD") ? (int)AsyncLoop::THREAD : (int)AsyncLoop::TASK;
+  if (const char *e = getenv("C03_NTHREADS"))
+    g_nthreads = atoi(e);
+  if (g_nthreads > 0)
+    rkcommon::tasking::initTaskingSystem(g_nthreads);
   if (const char *e = getenv("C03_PATIENCE"))
     g_patience = atoi(e) > 0 ? atoi(e) : 1;
   if (mode == "probe") {
     printf("HOOKS=%d\n", HAVE_HOOKS);
     return 0;
+  }
+  if (mode == "launch" && g_method >= 0) {
+    if (HAVE_HOOKS)
+      install();
+    return do_launch(mname);
   }
   if (mode == "stress" && argc >= 6) {
     if (HAVE_HOOKS)
